@@ -545,6 +545,25 @@ def run_case(c):
                 if compat != op:
                     viol.append({"key": "const-compat-ctor-differs",
                                  "msg": f"{v}: {from_sut(compat)} vs {ref}"})
+            # the operation returned belongs to the caller: editing it in
+            # place (as one edits an expression it was put into) must not
+            # change what the next request for the same constant gives
+            if in_range and "value" in getattr(op, "__dict__", {}):
+                op.value = v - 1 if v > 0 else v + 1
+                try:
+                    again = expr.make_const_op(v)
+                    dec2, _ = _decode_ref(
+                        "op", bytes(again.encode(order, ptr)), order, ptr)
+                    ctr["const_reuse_probes"] = 1
+                    if again is op or R.const_value(dec2) != v:
+                        viol.append({
+                            "key": "const-second-request-sees-callers-edit",
+                            "msg": f"{v}: second make_const_op gives "
+                                   f"{from_sut(again)}"})
+                except Exception as e:  # noqa
+                    viol.append({
+                        "key": "const-second-request-raises:"
+                               + type(e).__name__, "msg": f"{v}: {e!r}"})
         sig = "const:" + bclass(v) + (":" + from_sut(op)[0] if op else "")
     elif kind == "overrun":
         data = bytes(c["bytes"])
